@@ -122,11 +122,14 @@ char *vm_string_from_char(int64_t code) {
 /* ── Character classification ────────────────────────────────────── */
 
 int64_t vm_is_digit(int64_t c) { return (c >= '0' && c <= '9') ? 1 : 0; }
-int64_t vm_is_alpha(int64_t c) { return isalpha((int)c) ? 1 : 0; }
-int64_t vm_is_alnum(int64_t c) { return isalnum((int)c) ? 1 : 0; }
-int64_t vm_is_space(int64_t c) { return isspace((int)c) ? 1 : 0; }
-int64_t vm_is_upper(int64_t c) { return isupper((int)c) ? 1 : 0; }
-int64_t vm_is_lower(int64_t c) { return islower((int)c) ? 1 : 0; }
+/* The argument is an int64: classify the value itself (ASCII ranges, as the natively compiled
+ * helpers do) instead of narrowing it to int for <ctype.h>, whose functions are only defined
+ * for unsigned char values and EOF. */
+int64_t vm_is_alpha(int64_t c) { return ((c >= 'a' && c <= 'z') || (c >= 'A' && c <= 'Z')) ? 1 : 0; }
+int64_t vm_is_alnum(int64_t c) { return (vm_is_digit(c) || vm_is_alpha(c)) ? 1 : 0; }
+int64_t vm_is_space(int64_t c) { return (c == ' ' || c == '\t' || c == '\n' || c == '\r' || c == '\v' || c == '\f') ? 1 : 0; }
+int64_t vm_is_upper(int64_t c) { return (c >= 'A' && c <= 'Z') ? 1 : 0; }
+int64_t vm_is_lower(int64_t c) { return (c >= 'a' && c <= 'z') ? 1 : 0; }
 int64_t vm_is_whitespace(int64_t c) {
     return (c == ' ' || c == '\t' || c == '\n' || c == '\r') ? 1 : 0;
 }
